@@ -64,7 +64,7 @@ func main() {
 		seq := Seq{ID: id, Bulk: bulk}
 		for j, s := range fixed {
 			if s.Kind == "construct" || s.Kind == "select" {
-				s.Q = g.Query(ctx, st, s.Ins, s.WB, s.Note)
+				s.Q = g.QueryHaving(ctx, st, s.Ins, s.WB, s.Note, s.Hav)
 			}
 			r := Execute(ctx, st, s.Text, bulk)
 			obs := &Observed{Class: r.Class, Err: r.Err}
@@ -109,7 +109,7 @@ func main() {
 		pool := Pool(b)
 		step := func(s VStmt) {
 			if s.Kind == "construct" {
-				s.Q = g.Query(ctx, st, s.Ins, s.WB, s.Note)
+				s.Q = g.QueryHaving(ctx, st, s.Ins, s.WB, s.Note, s.Hav)
 			}
 			r := Execute(ctx, st, s.Text, seq.Bulk)
 			s.Obs = &Observed{Class: r.Class, Err: r.Err, After: Listing(ctx, st, b)}
@@ -171,7 +171,7 @@ func main() {
 				s = g.Stmt()
 			}
 			if s.Kind == "construct" || s.Kind == "select" {
-				s.Q = g.Query(ctx, st, s.Ins, s.WB, s.Note)
+				s.Q = g.QueryHaving(ctx, st, s.Ins, s.WB, s.Note, s.Hav)
 			}
 			r := Execute(ctx, st, s.Text, seq.Bulk)
 			obs := &Observed{Class: r.Class, Err: r.Err}
